@@ -11,6 +11,11 @@ import (
 	"time"
 )
 
+// Progress is bumped by every engine and driver once per execution / expanded
+// node / text. The pool's monitor uses it to tell a run that is merely slow
+// from one in which the remaining shards are stuck inside the code under test.
+var Progress atomic.Int64
+
 // Stats are the coverage counters of a check. Every worker owns one value and
 // the pool adds them up.
 type Stats struct {
@@ -25,7 +30,12 @@ type Stats struct {
 	Extra       map[string]int64
 	Samples     []any
 	CapsHit     []string
+	note        atomic.Pointer[string]
 }
+
+// SetNote publishes what the shard is working on (configuration, input); it is
+// reported when the shard turns out to be stuck.
+func (s *Stats) SetNote(n string) { s.note.Store(&n) }
 
 // Add adds x to the named extra counter.
 func (s *Stats) Add(name string, x int64) {
@@ -152,7 +162,7 @@ type Shard struct {
 // Current describes what a worker is doing; used by the watchdog.
 type current struct {
 	shard atomic.Pointer[string]
-	note  atomic.Pointer[string]
+	st    atomic.Pointer[Stats]
 	since atomic.Int64
 }
 
@@ -161,6 +171,9 @@ type Pool struct {
 	Workers  int
 	Deadline time.Time     // internal budget: shards not started before it are skipped (exhaustive=false)
 	Watchdog time.Duration // a shard running longer than this is reported as hang suspect
+	// Stall: if the global Progress counter does not move for this long while
+	// shards are still running, those shards are reported as hang suspects.
+	Stall time.Duration
 	Seed     int64
 
 	cur []current
@@ -177,6 +190,7 @@ type Result struct {
 	ShardsDone  int
 	Skipped     []string
 	HangSuspect string
+	HangNote    string // what the stuck shard was working on
 	Wall        time.Duration
 	Slowest     []ShardTime // the slowest shards (for tuning the partition)
 }
@@ -235,6 +249,7 @@ func (p *Pool) Run(shards []Shard, col *Collector) Result {
 				p.cur[w].shard.Store(&name)
 				p.cur[w].since.Store(time.Now().UnixNano())
 				var st Stats
+				p.cur[w].st.Store(&st)
 				t0 := time.Now()
 				sh.Run(&st, col)
 				d := time.Since(t0)
@@ -250,12 +265,29 @@ func (p *Pool) Run(shards []Shard, col *Collector) Result {
 	go func() { wg.Wait(); close(done) }()
 	tick := time.NewTicker(2 * time.Second)
 	defer tick.Stop()
+	lastProgress, lastMove := Progress.Load(), time.Now()
 loop:
 	for {
 		select {
 		case <-done:
 			break loop
 		case <-tick.C:
+			if v := Progress.Load(); v != lastProgress {
+				lastProgress, lastMove = v, time.Now()
+			} else if p.Stall > 0 && time.Since(lastMove) > p.Stall {
+				for w := range p.cur {
+					if s := p.cur[w].shard.Load(); s != nil {
+						res.HangSuspect = *s
+						sort.Slice(res.Slowest, func(i, j int) bool { return res.Slowest[i].Seconds > res.Slowest[j].Seconds })
+						if st := p.cur[w].st.Load(); st != nil {
+							if n := st.note.Load(); n != nil {
+								res.HangNote = *n
+							}
+						}
+						break loop
+					}
+				}
+			}
 			if p.Watchdog <= 0 {
 				continue
 			}
